@@ -239,6 +239,13 @@ def random_case(draw):
         rest = draw(st.lists(st.sampled_from(low), min_size=0, max_size=4, unique_by=tuple)) if low else []
         rows = top + rest
     kind = draw(st.sampled_from(["i", "f"]))
+    # narrow / unsigned storage with values at the type's limits: the order is decided by the coefficients'
+    # values, which differences in the storage type do not represent
+    narrow = draw(st.sampled_from([None, None, None, None, "uint8", "uint64", "int8"]))
+    NARROW_POOL = {"uint8": [0, 1, 2, 200, 255, 254], "uint64": [0, 1, 3, 2 ** 63, 2 ** 64 - 1, 2 ** 63 + 5],
+                   "int8": [0, 1, -1, 127, -128, 100, -100]}
+    if narrow:
+        kind = "i"
     target = draw(st.sampled_from([(), (2,), (3,), (2, 2), (1, 3), (2, 1, 2)]))
     n = draw(st.sampled_from([2, 2, 3]))
     ops = []
@@ -247,11 +254,14 @@ def random_case(draw):
         size = gen.size_of(shp)
         terms = []
         for row in rows:
-            cs = draw(st.lists(st.sampled_from([0, 1, -1, 2, 1, -2]) if kind == "i" else
+            cs = draw(st.lists(st.sampled_from(NARROW_POOL[narrow]) if narrow else
+                               st.sampled_from([0, 1, -1, 2, 1, -2]) if kind == "i" else
                                st.sampled_from([0, 4, -4, 2, 6, -2]), min_size=size, max_size=size))
             terms.append([row, cs])
         ops.append({"names": names, "shape": list(shp), "kind": kind, "terms": terms, "retain": False})
-    mode = draw(st.sampled_from(["two", "two", "one", "free"]))
+        if narrow:
+            ops[-1]["dtype"] = narrow
+    mode = draw(st.sampled_from(["two", "two", "one", "free"])) if not narrow else "narrow"
     if mode == "one" and rows:
         # second operand differs from the first at exactly ONE monomial (any, also the lowest):
         # every position of the walk over the aligned terms gets to decide a verdict
@@ -279,7 +289,7 @@ def random_case(draw):
                 terms[j][1][e] -= step
             ops[1] = {"names": names, "shape": list(ops[0]["shape"]), "kind": kind, "terms": terms,
                       "retain": False}
-    elif draw(st.integers(0, 2)) == 0:
+    elif not narrow and draw(st.integers(0, 2)) == 0:
         ops[-1] = draw(gen.numeric_desc(shape=gen.broadcast_member(draw, target), kind=kind))
     g, r = draw(st.sampled_from(SETTINGS))
     return {"ops": ops, "graded": g, "reverse": r}
@@ -359,6 +369,8 @@ def check_case(case, ctx):
     ctx.label("n-operands:%d" % len(live))
     if any("num" in d for d in case["ops"]):
         ctx.label("numeric-operand")
+    if any(d.get("dtype") for d in case["ops"]):
+        ctx.label("storage:" + next(d["dtype"] for d in case["ops"] if d.get("dtype")))
     ctx.nontrivial(nontrivial)
     return fails
 
